@@ -101,6 +101,11 @@ Fixpoint wf_from (i : nat) (T : table) : bool :=
   match T with [] => true | k :: r => wf_row i k && wf_from (S i) r end.
 Definition wf (T : table) : bool := wf_from 0 T.
 
+(* CPython's order for ANY position of an explicitly written `object` (and for the implicit one):
+   `object` is always the last class.  On in_domain tables that mention object it is [mro]. *)
+Definition mro_real (T : table) (c : cid) : list cid :=
+  filter (fun k => negb (Nat.eqb k obj)) (mro T c) ++ [obj].
+
 (* vars(cls)[x]: the last binding of x executed in the class body *)
 Definition own_get (T : table) (k : cid) (x : name) : option site := get x (dict_of (own (row T k))).
 Definition defines (T : table) (x : name) (k : cid) : bool := has x (own (row T k)).
@@ -112,6 +117,12 @@ Definition sites_of (x : name) (l : list (name * site)) : list site :=
 (* type lookup: the first class of the MRO whose body binds x *)
 Definition py_class_lookup (T : table) (c : cid) (x : name) : option site :=
   match find (defines T x) (mro T c) with
+  | Some k => own_get T k x
+  | None => None
+  end.
+
+Definition py_class_lookup_real (T : table) (c : cid) (x : name) : option site :=
+  match find (defines T x) (mro_real T c) with
   | Some k => own_get T k x
   | None => None
   end.
@@ -266,3 +277,13 @@ Definition ex_table : table :=
 Definition f31_table : table :=
   [ mkCls [] [] [];
     mkCls [] [(1, (1, 2, 4))]%N [(1, (1, 4, 8))]%N ].
+
+(* open finding "explicit object not last":
+     class Base(object): pass            row 1
+     class Mixin: def __init__ (1,5,8)   row 2      (object's vars: name 1 = __init__)
+     class C(Base, Mixin): pass          row 3 *)
+Definition objfirst_table : table :=
+  [ mkCls [] [(1, rt_site)]%N [];
+    mkCls [0] [] [];
+    mkCls [] [(1, (1, 5, 8))]%N [];
+    mkCls [1; 2] [] [] ].
